@@ -1414,9 +1414,9 @@ impl ReaderState {
         let mut buf = Vec::new();
         let content = match reader.read_to_end_into(end.name(), &mut buf) {
             Ok(span) => {
-                let r = self.content[(span.start as usize)..(span.end as usize)]
-                    .trim()
-                    .to_string();
+                let r = Self::decode_character_data(
+                    self.content[(span.start as usize)..(span.end as usize)].trim(),
+                );
                 #[cfg(feature = "Debug_Reader")]
                 debug!("{} content {} - {}: {}", tag, span.start, span.end, r);
                 r
@@ -1429,6 +1429,39 @@ impl ReaderState {
         self.pop();
 
         content
+    }
+
+    /// Decodes the raw content of an element.\
+    /// Pure character data (no child elements) is returned with entity references resolved and
+    /// CDATA sections unwrapped, like attribute values. Content with markup (e.g. an inline
+    /// \<scxml\> document inside \<content\>) is returned as it is written.
+    fn decode_character_data(raw: &str) -> String {
+        let mut out = String::with_capacity(raw.len());
+        let mut rest = raw;
+        loop {
+            let (text, cdata_and_rest) = match rest.find("<![CDATA[") {
+                Some(p) => (&rest[..p], Some(&rest[p + 9..])),
+                None => (rest, None),
+            };
+            if text.contains('<') {
+                return raw.to_string();
+            }
+            match quick_xml::escape::unescape(text) {
+                Ok(t) => out.push_str(&t),
+                Err(_) => return raw.to_string(),
+            }
+            match cdata_and_rest {
+                None => break,
+                Some(c) => match c.find("]]>") {
+                    Some(e) => {
+                        out.push_str(&c[..e]);
+                        rest = &c[e + 3..];
+                    }
+                    None => return raw.to_string(),
+                },
+            }
+        }
+        out
     }
 
     fn start_content(&mut self, attr: &AttributeMap, reader: &mut XReader, has_content: bool) {
